@@ -49,7 +49,7 @@ func shortFuncName(f *ssa.Function) string {
 // pure library functions: no heap effect. Value: extra facts about the result.
 var pureLib = map[string]string{
 	"fmt.Errorf": "nonnil", "errors.New": "nonnil", "fmt.Sprintf": "", "fmt.Sprint": "", "fmt.Sprintln": "",
-	"reflect.TypeOf": "", "reflect.ValueOf": "", "strconv.Itoa": "", "strconv.Atoi": "", "strconv.ParseInt": "", "strconv.ParseFloat": "",
+	"reflect.TypeOf": "", "reflect.ValueOf": "", "reflect.DeepEqual": "", "strconv.Itoa": "", "strconv.Atoi": "", "strconv.ParseInt": "", "strconv.ParseFloat": "",
 	"strconv.FormatInt": "", "strconv.Quote": "", "bytes.Equal": "", "strings.Join": "", "strings.HasPrefix": "", "strings.HasSuffix": "",
 	"strings.Contains": "", "strings.ToLower": "", "strings.ToUpper": "", "strings.Split": "", "strings.TrimSpace": "", "strings.Repeat": "",
 	"(reflect.Value).Pointer": "", "(reflect.Value).Kind": "", "(reflect.Value).IsNil": "", "(reflect.Value).Len": "", "(reflect.Value).Interface": "",
@@ -94,6 +94,14 @@ func (vc *FnVC) callWrites(c ssa.CallInstruction) (map[string]bool, bool) {
 	}
 	if _, isDefer := c.(*ssa.Defer); isDefer {
 		return set, false // effect happens at rundefers
+	}
+	if fn, ok := cc.Value.(*ssa.Function); ok && fn.Pkg != nil && fn.Pkg.Pkg.Path() == "sort" && (fn.Name() == "Slice" || fn.Name() == "SliceStable") && len(cc.Args) > 0 {
+		if mi, ok := cc.Args[0].(*ssa.MakeInterface); ok {
+			if st, ok := mi.X.Type().Underlying().(*types.Slice); ok {
+				set[vc.e.arrComp(st.Elem())] = true
+				return set, false
+			}
+		}
 	}
 	callee, ct := vc.resolveCallee(cc)
 	if ct != nil && ct.HasAssign {
@@ -159,6 +167,9 @@ func (vc *FnVC) call(c ssa.CallInstruction, val *ssa.Call) {
 		return
 	}
 	if vc.atomicOp(cc, val) {
+		return
+	}
+	if vc.sortSlice(cc) {
 		return
 	}
 	sig := cc.Signature()
@@ -472,6 +483,26 @@ func (vc *FnVC) siteOrdinal(c ssa.CallInstruction, name string) int {
 		}
 	}
 	return vc.siteOrd[c]
+}
+
+// sortSlice: sort.Slice / sort.SliceStable permute the elements of the given slice in place and touch nothing else
+// (the comparison closure is assumed to be free of side effects): only that slice type's element component is havoc'd.
+func (vc *FnVC) sortSlice(cc *ssa.CallCommon) bool {
+	fn, ok := cc.Value.(*ssa.Function)
+	if !ok || fn.Pkg == nil || fn.Pkg.Pkg.Path() != "sort" || (fn.Name() != "Slice" && fn.Name() != "SliceStable") || len(cc.Args) == 0 {
+		return false
+	}
+	mi, ok := cc.Args[0].(*ssa.MakeInterface)
+	if !ok {
+		return false
+	}
+	st, ok := mi.X.Type().Underlying().(*types.Slice)
+	if !ok {
+		return false
+	}
+	vc.cur = vc.cur.havoc(map[string]bool{vc.e.arrComp(st.Elem()): true}, nil)
+	vc.trustedUsed["library: sort.Slice/SliceStable only permute the elements of the slice they are given (comparison closure without side effects)"] = true
+	return true
 }
 
 // atomicOp: sync/atomic operations on a struct field or variable are single atomic steps on that location.
